@@ -46,6 +46,7 @@ type Contract struct {
 	IsIface    bool
 	Lets       [][2]string // let name = expr (evaluated at entry)
 	Pure       bool
+	Synth      bool // synthesised: exists only to be checked against an interface contract
 }
 
 func (c *Contract) loop(n int) *LoopSpec {
